@@ -61,6 +61,8 @@ type C15Case struct {
 	// Rand seeds the stand-in for the package-level math/rand generator (the runtime seeds it at random in every
 	// process): whatever the loader draws (jitter, ...) is part of the schedule the search explores
 	Rand int64 `json:"rand_seed,omitempty"`
+	// Again: number of further loads through the same DatabaseRecovery object
+	Again int `json:"further_loads_same_object,omitempty"`
 }
 
 var c15Kinds = []string{"valid", "missing", "dir", "perm", "empty", "malformed", "notlist", "truncated", "bitflip"}
@@ -142,6 +144,7 @@ func genC15(rt *rapid.T) C15Case {
 		c.Cfg = defaultCfg()
 	}
 	c.Rand = rapid.Int64Range(1, 1<<20).Draw(rt, "randseed")
+	c.Again = rapid.SampledFrom([]int{0, 0, 0, 1, 2, 4}).Draw(rt, "again")
 	if rapid.IntRange(0, 3).Draw(rt, "hassched") == 0 {
 		c.Sched = genSchedule(rt, 40)
 	}
@@ -410,164 +413,191 @@ func runC15Body(c C15Case) *Outcome {
 		return o
 	}
 	dr := recovery.NewDatabaseRecovery(recovery.RetryConfig{MaxAttempts: c.Cfg.Attempts, BaseDelay: time.Duration(c.Cfg.BaseNS), MaxDelay: time.Duration(c.Cfg.CapNS), BackoffFactor: c.Cfg.Factor})
-	var db *database.Database
-	var err error
-	var pan any
-	func() {
-		defer func() {
-			if pan = recover(); pan != nil && simrt.IsAbort(pan) {
-				panic(pan)
-			}
-		}()
-		db, err = dr.LoadDatabaseWithFallback(c15Main, c15Personal)
-	}()
-	trace := simos.Trace()
-	sleeps := simtime.Sleeps()
-	o.Digest = digestOf([]any{traceString(trace), sleeps, err == nil, db != nil})
-	for k, v := range simos.Fired() {
-		o.Faults[k] += v
-	}
-	if pan != nil {
-		return fail("panic", "LoadDatabaseWithFallback panicked: %v", pan)
-	}
-	if err != nil {
-		return fail("error", "LoadDatabaseWithFallback returned an error: %v", err)
-	}
-	if db == nil {
-		return fail("nil-db", "LoadDatabaseWithFallback returned (nil, nil)")
-	}
-	// attempts = opens of the main file
-	attempts := 0
-	for _, ev := range trace {
-		if ev.Op == "open-r" && ev.Path == c15Main {
-			attempts++
-		}
-	}
-	allowed := c.Cfg.Attempts
-	if allowed < 1 {
-		allowed = 1
-	}
-	// reference: walk the attempts actually made
+	// Again: further loads through the SAME recovery object (a long-lived caller); every load must satisfy the statement
+	// on its own. Fault overlays that count occurrences ("the first open fails") run on, so a later load may well succeed.
 	mainK, persK := 0, 0
+	traceOff, sleepOff := 0, 0
+	var digs []any
+	var sleeps []time.Duration
+	attempts := 0
 	success := false
-	var real []database.Command
-	stopCause := ""
-	made := 0
-	for made < attempts {
-		made++
-		mc, mcmds := c.Main.outcomeAt(mainK)
-		mainK++
-		cause := ""
-		if mc == "ok" {
-			pc, pcmds := c.Personal.outcomeAt(persK)
-			persK++
-			switch pc {
-			case "ok":
-				success, real = true, append(append([]database.Command{}, mcmds...), pcmds...)
-			case "enoent":
-				success, real = true, mcmds
-			default:
-				cause = "personal:" + pc
+	judge := func(rep int) *Outcome {
+		fail := func(sig, f string, a ...any) *Outcome {
+			if rep > 0 {
+				f = fmt.Sprintf("load %d through the same recovery object: ", rep+1) + f
 			}
-		} else {
-			cause = "main:" + mc
+			return fail(sig, f, a...)
 		}
-		if success {
-			break
-		}
-		stopCause = cause
-		if cause == "main:enoent" || cause == "main:eacces" || cause == "personal:eacces" {
-			break
-		}
-	}
-	if attempts == 0 {
-		return fail("no-attempt", "the main file was never opened, yet a database was returned")
-	}
-	if made < attempts {
-		if success {
-			return fail("futile-retry", "attempt %d loaded the database, but the main file was opened %d times", made, attempts)
-		}
-		return fail("futile-retry", "%s was the cause at attempt %d (a missing or permission-denied file is tried once), but the main file was opened %d times", stopCause, made, attempts)
-	}
-	if attempts > allowed {
-		return fail("too-many-attempts", "the main file was opened %d times, the configuration allows %d attempt(s)", attempts, allowed)
-	}
-	// waits
-	capD := time.Duration(c.Cfg.CapNS)
-	for i, d := range sleeps {
-		if d < 0 {
-			return fail("negative-wait", "wait %d is %v", i, d)
-		}
-		if d > capD {
-			return fail("wait-over-cap", "wait %d is %v, the configured maximum is %v", i, d, capD)
-		}
-		if i > 0 && d < sleeps[i-1] {
-			return fail("wait-decreases", "waits %v decrease at position %d", sleeps, i)
-		}
-	}
-	if len(sleeps) > attempts-1 {
-		return fail("futile-wait", "%d waits for %d attempt(s): a wait follows the last attempt", len(sleeps), attempts)
-	}
-	// the database
-	var cmds []database.Command
-	func() {
-		defer func() {
-			if pan = recover(); pan != nil && simrt.IsAbort(pan) {
-				panic(pan)
-			}
-		}()
-		cmds = db.Commands
-		word := ""
-		for _, cm := range cmds {
-			for _, w := range strings.Fields(strings.ToLower(cm.Description + " " + strings.Join(cm.Keywords, " "))) {
-				if len(w) >= 4 && strings.Trim(w, "abcdefghijklmnopqrstuvwxyz") == "" {
-					word = w
-					break
+		var db *database.Database
+		var err error
+		var pan any
+		func() {
+			defer func() {
+				if pan = recover(); pan != nil && simrt.IsAbort(pan) {
+					panic(pan)
 				}
+			}()
+			db, err = dr.LoadDatabaseWithFallback(c15Main, c15Personal)
+		}()
+		trace := simos.Trace()[traceOff:]
+		traceOff += len(trace)
+		sleeps = simtime.Sleeps()[sleepOff:]
+		sleepOff += len(sleeps)
+		digs = append(digs, traceString(trace), sleeps, err == nil, db != nil)
+		o.Digest = digestOf(digs)
+		for k, v := range simos.Fired() {
+			o.Faults[k] += v
+		}
+		if pan != nil {
+			return fail("panic", "LoadDatabaseWithFallback panicked: %v", pan)
+		}
+		if err != nil {
+			return fail("error", "LoadDatabaseWithFallback returned an error: %v", err)
+		}
+		if db == nil {
+			return fail("nil-db", "LoadDatabaseWithFallback returned (nil, nil)")
+		}
+		// attempts = opens of the main file
+		attempts = 0
+		for _, ev := range trace {
+			if ev.Op == "open-r" && ev.Path == c15Main {
+				attempts++
 			}
-			if word != "" {
+		}
+		allowed := c.Cfg.Attempts
+		if allowed < 1 {
+			allowed = 1
+		}
+		// reference: walk the attempts actually made (the per-file occurrence counters run on across the loads of one case)
+		success = false
+		var real []database.Command
+		stopCause := ""
+		made := 0
+		for made < attempts {
+			made++
+			mc, mcmds := c.Main.outcomeAt(mainK)
+			mainK++
+			cause := ""
+			if mc == "ok" {
+				pc, pcmds := c.Personal.outcomeAt(persK)
+				persK++
+				switch pc {
+				case "ok":
+					success, real = true, append(append([]database.Command{}, mcmds...), pcmds...)
+				case "enoent":
+					success, real = true, mcmds
+				default:
+					cause = "personal:" + pc
+				}
+			} else {
+				cause = "main:" + mc
+			}
+			if success {
+				break
+			}
+			stopCause = cause
+			if cause == "main:enoent" || cause == "main:eacces" || cause == "personal:eacces" {
 				break
 			}
 		}
-		_ = db.SearchUniversal("list files", database.SearchOptions{Limit: 5, UseNLP: true, UseFuzzy: true})
-		if word != "" {
-			r := db.SearchUniversal(word, database.SearchOptions{Limit: 3, AllPlatforms: true})
-			if len(r) == 0 {
-				pan = fmt.Sprintf("a search for %q, a word of one of its own entries, returns nothing", word)
+		if attempts == 0 {
+			return fail("no-attempt", "the main file was never opened, yet a database was returned")
+		}
+		if made < attempts {
+			if success {
+				return fail("futile-retry", "attempt %d loaded the database, but the main file was opened %d times", made, attempts)
+			}
+			return fail("futile-retry", "%s was the cause at attempt %d (a missing or permission-denied file is tried once), but the main file was opened %d times", stopCause, made, attempts)
+		}
+		if attempts > allowed {
+			return fail("too-many-attempts", "the main file was opened %d times, the configuration allows %d attempt(s)", attempts, allowed)
+		}
+		// waits
+		capD := time.Duration(c.Cfg.CapNS)
+		for i, d := range sleeps {
+			if d < 0 {
+				return fail("negative-wait", "wait %d is %v", i, d)
+			}
+			if d > capD {
+				return fail("wait-over-cap", "wait %d is %v, the configured maximum is %v", i, d, capD)
+			}
+			if i > 0 && d < sleeps[i-1] {
+				return fail("wait-decreases", "waits %v decrease at position %d", sleeps, i)
 			}
 		}
-	}()
-	if pan != nil {
-		return fail("unsearchable", "the returned database cannot be searched: %v", pan)
+		if len(sleeps) > attempts-1 {
+			return fail("futile-wait", "%d waits for %d attempt(s): a wait follows the last attempt", len(sleeps), attempts)
+		}
+		// the database
+		var cmds []database.Command
+		func() {
+			defer func() {
+				if pan = recover(); pan != nil && simrt.IsAbort(pan) {
+					panic(pan)
+				}
+			}()
+			cmds = db.Commands
+			word := ""
+			for _, cm := range cmds {
+				for _, w := range strings.Fields(strings.ToLower(cm.Description + " " + strings.Join(cm.Keywords, " "))) {
+					if len(w) >= 4 && strings.Trim(w, "abcdefghijklmnopqrstuvwxyz") == "" {
+						word = w
+						break
+					}
+				}
+				if word != "" {
+					break
+				}
+			}
+			_ = db.SearchUniversal("list files", database.SearchOptions{Limit: 5, UseNLP: true, UseFuzzy: true})
+			if word != "" {
+				r := db.SearchUniversal(word, database.SearchOptions{Limit: 3, AllPlatforms: true})
+				if len(r) == 0 {
+					pan = fmt.Sprintf("a search for %q, a word of one of its own entries, returns nothing", word)
+				}
+			}
+		}()
+		if pan != nil {
+			return fail("unsearchable", "the returned database cannot be searched: %v", pan)
+		}
+		if success {
+			if d := sameEntries(cmds, real); d != "" {
+				return fail("wrong-database", "the files load (main entries then notebook entries) but the returned database differs: %s", d)
+			}
+			o.Probes["c15.real_db"] = 1
+			if attempts > 1 {
+				o.Probes["retry.transient_recovered"] = 1
+			}
+		} else {
+			if len(cmds) == 0 {
+				return fail("empty-fallback", "nothing could be loaded and the fallback database is empty")
+			}
+			// "a built-in fallback": it cannot hold entries of a main or notebook file that did not load
+			fromFiles := map[string]bool{}
+			for _, f := range []*FileState{&c.Main, &c.Personal} {
+				for _, cm := range f.Cmds {
+					fromFiles[cm.Command+"\x00"+cm.Description] = true
+				}
+			}
+			for _, cm := range cmds {
+				if fromFiles[cm.Command+"\x00"+cm.Description] {
+					return fail("partial-load", "loading failed (%s at the last attempt) yet the returned database contains the file entry %q instead of the built-in fallback", stopCause, cm.Command)
+				}
+			}
+			o.Probes["c15.fallback_db"] = 1
+			if attempts < allowed && stopCause != "main:enoent" && stopCause != "main:eacces" && stopCause != "personal:eacces" {
+				o.Probes["c15.gave_up_before_budget"] = 1 // permitted by the statement ("at most"), counted
+			}
+		}
+		return nil
 	}
-	if success {
-		if d := sameEntries(cmds, real); d != "" {
-			return fail("wrong-database", "the files load (main entries then notebook entries) but the returned database differs: %s", d)
+	for rep := 0; rep <= c.Again; rep++ {
+		if v := judge(rep); v != nil {
+			return v
 		}
-		o.Probes["c15.real_db"] = 1
-		if attempts > 1 {
-			o.Probes["retry.transient_recovered"] = 1
-		}
-	} else {
-		if len(cmds) == 0 {
-			return fail("empty-fallback", "nothing could be loaded and the fallback database is empty")
-		}
-		// "a built-in fallback": it cannot hold entries of a main or notebook file that did not load
-		fromFiles := map[string]bool{}
-		for _, f := range []*FileState{&c.Main, &c.Personal} {
-			for _, cm := range f.Cmds {
-				fromFiles[cm.Command+"\x00"+cm.Description] = true
-			}
-		}
-		for _, cm := range cmds {
-			if fromFiles[cm.Command+"\x00"+cm.Description] {
-				return fail("partial-load", "loading failed (%s at the last attempt) yet the returned database contains the file entry %q instead of the built-in fallback", stopCause, cm.Command)
-			}
-		}
-		o.Probes["c15.fallback_db"] = 1
-		if attempts < allowed && stopCause != "main:enoent" && stopCause != "main:eacces" && stopCause != "personal:eacces" {
-			o.Probes["c15.gave_up_before_budget"] = 1 // permitted by the statement ("at most"), counted
-		}
+	}
+	if c.Again > 0 {
+		o.Probes["c15.loads_through_one_object"] = c.Again + 1
 	}
 	if len(sleeps) > 0 {
 		o.Probes["retry.slept"] = 1
